@@ -68,25 +68,37 @@ def fingerprint(case, d):
 
 def run(rep, tier, seed):
     n = 2 if tier == "quick" else 3
-    cfg = loadcheck.cfg_text(n, "Mains", "Items", emit=False, invariants=["IncludeIsInlining", "IllFormedCallRefused", "RegistryAgrees"], props=[],
-                             fs="FS7", basedir="W", extra_consts="CONSTRAINT EmitI\n")
-    r = common.run_tlc("MC_C07", cfg, timeout=3000)
-    common.require_ok(r, "MC_C07")
-    rep.add_tlc(r, "MC_C07 6 main scripts (include layouts) x up to %d calls/items over a 5-file tree" % n)
-    if r.violated:
-        raise common.MachineryError("MC_C07: spec-level invariant %s violated\n%s" % (r.violated, r.counterexample()[:2000]))
-    files = r.tagged("FILES")[0]
+    runs = [(2, "MainsQuick"), (1, "Mains")] if tier == "quick" else [(3, "MainsQuick"), (2, "Mains")]
+    tagged = []
+    for n_, mains in runs:
+        # IncludeIsInlining and IllFormedCallRefused are evaluated inside EmitAll (once per final state, sharing the unrolled and the
+        # inlined script) and printed with each case as 'inlining' / 'refused'
+        cfg = loadcheck.cfg_text(n_, mains, "Items", emit=False, invariants=["RegistryAgrees"], props=[],
+                                 fs="FS7", basedir="W", extra_consts="CONSTRAINT EmitAll\n")
+        r = common.run_tlc("MC_C07", cfg, timeout=3000)
+        common.require_ok(r, "MC_C07")
+        rep.add_tlc(r, "MC_C07 %s (include layouts) x up to %d calls/items over an 11-file tree" % (mains, n_))
+        if r.violated:
+            raise common.MachineryError("MC_C07: spec-level invariant %s violated\n%s" % (r.violated, r.counterexample()[:2000]))
+        broken = [c for c in r.tagged("CASE") if not (c["inlining"] and c["refused"])]
+        if broken:
+            raise common.MachineryError("MC_C07: the specification contradicts itself (IncludeIsInlining %s, IllFormedCallRefused %s) on\n%s" % (
+                broken[0]["inlining"], broken[0]["refused"], json.dumps(broken[0]["s"])[:1500]))
+        tagged.append(r)
+    files = tagged[0].tagged("FILES")[0]
     seen = {}
-    for c in r.tagged("CASE"):
-        seen.setdefault(json.dumps(c["s"], sort_keys=True), c)
+    for r in tagged:
+        for c in r.tagged("CASE"):
+            seen.setdefault(json.dumps(c["s"], sort_keys=True), c)
     cases = list(seen.values())
     for c in cases:
         c["files"] = files
     loadcheck.replay_cases(rep, cases, seed, sections=("ops", "modes"), fingerprint=fingerprint, judge=judge, strict_cls=False)
     random_trees(rep, tier, seed)
     rep.cov["working_directories_per_case"] = 3
-    rep.cov["rule"] = ("6 main scripts (same-directory, repeated, nested, sub-directory, sibling-directory via .., absolute include paths) x up to %d items "
-                       "from 16 (calls of a 3-mode subroutine on modes {1,3,8} with different mode lists, a two-parameter template with keywords in either "
+    rep.cov["rule"] = ("10 main scripts (same-directory, repeated, nested, sub-directory, sibling-directory via .., absolute include paths, equally written "
+                       "include lines, a template for register-valued calls; quick tier: pairs of items under 5 of them, single items under all) x up to %d items "
+                       "from 34 (calls of a 3-mode subroutine on modes {1,3,8} with different mode lists, a two-parameter template with keywords in either "
                        "order and computed values, nested callee, ill-formed calls); each loaded from 3 working directories (relative and absolute load "
                        "path) and compared with the specification and with the real load of the inlined text" % n)
     rep.assumptions += ["callee programs without measured registers; instantiated values compared numerically"]
